@@ -26,6 +26,12 @@ import (
 func changeSources(root string) {
 	t := time.Unix(1410000000, 0)
 	var dirs, regs []string
+	filepath.Walk(filepath.Join(root, "scripts"), func(p string, fi os.FileInfo, err error) error {
+		if err == nil && fi.Mode().IsRegular() {
+			regs = append(regs, p) // the maintainer scripts are sources too
+		}
+		return nil
+	})
 	filepath.Walk(filepath.Join(root, "src"), func(p string, fi os.FileInfo, err error) error {
 		if err != nil {
 			return nil
@@ -133,6 +139,12 @@ func famRepro(tr *Trace, scratch string, seed int64, tier string, nfpmBin string
 			pc.Nodes = append(pc.Nodes, Node{P: ".cache", Kind: "dir", Mode: 0o755, Mt: 1400000001})
 			c.Entries = append(c.Entries, Entry{Type: "file", Src: ".e*", Dst: "/opt/dots"}, Entry{Type: "file", Src: ".c*", Dst: "/opt/dots2"})
 			c.NoGlob = false
+		}
+		if i%5 == 2 { // a tree that contains an ABSOLUTE symbolic link into itself (and one out of it): shipped as it is, however the tree is referred to
+			b := []byte("inner\n")
+			pc.Nodes = append(pc.Nodes, Node{P: "abstree", Kind: "dir", Mode: 0o755, Mt: 1400000003}, Node{P: "abstree/inner.txt", Kind: "file", Mode: 0o644, Mt: 1400000003, Size: len(b), data: b, Cid: cidOf(b)},
+				Node{P: "abstree/into", Kind: "link", Link: "$ROOT/abstree/inner.txt"}, Node{P: "abstree/out", Kind: "link", Link: "/etc/hostname"})
+			c.Entries = append(c.Entries, Entry{Type: "tree", Src: "abstree", Dst: "/opt/repro/abstree"})
 		}
 		if i%5 == 1 { // destinations that differ only in letter case: their relative order is part of the bytes
 			for _, nm := range []string{"casepair-upper.txt", "casepair-lower.txt"} {
